@@ -20,12 +20,20 @@ static bool is_integer_pt(const Pt &p)
     mp_fdiv_r(r, p.n, integer_class(2));
     return r == 0;
 }
-static Operand operand(const std::string &tag, const Pt &p, long B)
+static bool g_enumEnds = false; // interval end points one path per value instead of symbolic (nested entry)
+static RCP<const Integer> endpoint(const std::string &name, long B)
+{
+    if (g_enumEnds)
+        return integer(-B + (long)verif_choice(name.c_str(), 2 * B + 1));
+    return sym_integer(name, -B, B);
+}
+static Operand operand(const std::string &tag, const Pt &p, long B, const std::vector<int> &kinds = {})
 {
     Operand o;
-    switch (verif_choice((tag + "_k").c_str(), 9)) {
+    unsigned kc = (unsigned)verif_choice((tag + "_k").c_str(), kinds.empty() ? 11 : kinds.size());
+    switch (kinds.empty() ? (int)kc : kinds[kc]) {
         case 0: { // interval [a,b] with open flags, a <= b symbolic integers
-            RCP<const Integer> a = sym_integer(nm(tag, "a"), -B, B), b = sym_integer(nm(tag, "b"), -B, B);
+            RCP<const Integer> a = endpoint(nm(tag, "a"), B), b = endpoint(nm(tag, "b"), B);
             verif_assume(a->as_integer_class() <= b->as_integer_class());
             bool lo = verif_choice(nm(tag, "lo").c_str(), 2), ro = verif_choice(nm(tag, "ro").c_str(), 2);
             verif_assume(a->as_integer_class() < b->as_integer_class() || (!lo && !ro)); // interval(a,a,open) is rejected by the constructor
@@ -72,9 +80,17 @@ static Operand operand(const std::string &tag, const Pt &p, long B)
             o.s = rationals();
             o.mem = true;
             break;
-        default:
+        case 8:
             o.s = universalset();
             o.mem = true;
+            break;
+        case 9:
+            o.s = naturals();
+            o.mem = is_integer_pt(p) && p.n > 0;
+            break;
+        default:
+            o.s = naturals0();
+            o.mem = is_integer_pt(p) && p.n >= 0;
             break;
     }
     return o;
@@ -183,6 +199,36 @@ extern "C" void harness_c27_binary()
     check(a.s->set_union(b.s), a.mem || b.mem, p, "member function set_union");
     check(a.s->set_intersection(b.s), a.mem && b.mem, p, "member function set_intersection");
     check(b.s->set_complement(a.s), a.mem && !b.mem, p, "member function set_complement");
+    VERIF_END();
+}
+// operations on results that stay unevaluated (Intersection with Rationals, Complement of a number set)
+extern "C" void harness_c27_nested()
+{
+    long B = verif_param("B", 1);
+    Pt p;
+    RCP<const Integer> pn = sym_integer("pn", -2 * B - 1, 2 * B + 1);
+    p.n = pn->as_integer_class();
+    p.num = Rational::from_two_ints(*pn, *integer(2));
+    g_enumEnds = true; // (the test point stays symbolic)
+    Operand a = operand("a", p, B, {7, 5, 6}), b = operand("b", p, B, {0, 10}), c = operand("c", p, B, {0, 6, 5});
+    g_enumEnds = false;
+    bool inter = verif_choice("inner", 2);
+    RCP<const Set> t = inter ? set_intersection({a.s, b.s}) : set_complement(a.s, b.s);
+    bool tm = inter ? (a.mem && b.mem) : (a.mem && !b.mem);
+    check(t, tm, p, "inner result");
+    // known finding: an unevaluated Intersection / Complement combined with Reals, Rationals or Integers recurses without end
+    // (the number sets' fallbacks call the free set_union / set_intersection, which call them back): natively a stack overflow
+    bool composite = is_a<Intersection>(*t) || is_a<Complement>(*t);
+    bool numberset = is_a<Reals>(*c.s) || is_a<Integers>(*c.s) || is_a<Rationals>(*c.s);
+    bool known = composite && numberset && verif_known("C27/number-set-with-composite-set-recursion", true);
+    switch (verif_choice("outer", 4)) {
+        case 0: check(set_complement(c.s, t), c.mem && !tm, p, "C minus T"); break;
+        case 1: check(set_complement(t, c.s), tm && !c.mem, p, "T minus C"); break;
+        case 2: check(set_union({t, c.s}), tm || c.mem, p, "T u C"); break;
+        default: check(set_intersection({t, c.s}), tm && c.mem, p, "T n C"); break;
+    }
+    if (known)
+        verif_known_end();
     VERIF_END();
 }
 extern "C" void harness_c27_ternary()
